@@ -2,6 +2,7 @@ package sim
 
 import (
 	"bytes"
+	"encoding/base64"
 	"encoding/gob"
 	"fmt"
 	"os"
@@ -203,6 +204,7 @@ func exportBlob(dir string, b *simBlob) {
 // RunCrossBuild is executed by the noasm build: it deserializes the blobs written by the asm build
 // and compares what they expose with the recorded models.
 func RunCrossBuild(r *Run) {
+	r.Prop = "C11"
 	files, _ := filepath.Glob(filepath.Join(*flagXDir, "x-*.gob"))
 	if len(files) == 0 {
 		r.Res.Harness = "cross-build: no blobs found in " + *flagXDir
@@ -228,11 +230,13 @@ func RunCrossBuild(r *Run) {
 		}
 		if derr != nil {
 			r.violate("xbuild", "error:"+msgClass(derr.Error()), fmt.Sprintf("noasm build cannot deserialize a blob written by the asm build in mode %d: %v", xb.Mode, derr))
+			r.Res.Inputs["xblob_gob"] = base64.StdEncoding.EncodeToString(raw)
 			return
 		}
 		o := &simObj{pj: out, model: xb.Model, copy: true}
 		readBack(r, o, bInto|bAdv|bIface, fmt.Sprintf("noasm build reading a blob written in mode %d", xb.Mode), nil)
 		if r.failed() {
+			r.Res.Inputs["xblob_gob"] = base64.StdEncoding.EncodeToString(raw)
 			return
 		}
 		r.Res.Evals++
